@@ -89,6 +89,15 @@ pub fn mk_filter<'a, In: Elem<'a>>(ctx: &'a Ctx, idx: usize) -> impl Fn(&In) -> 
         let (id, val) = (x.it().id, x.it().val);
         ctx.enter(idx as u8, id, 0);
         let st = &ctx.case.stages[idx];
+        // a partial predicate: like `.filter(|x| *x != 0).filter(|x| 100 / *x > 20)`, a filter that directly follows
+        // another filter is only defined on what that one accepts
+        if idx > 0 {
+            let prev = &ctx.case.stages[idx - 1];
+            if prev.kind == Kind::Filter && !prev.keep.keeps(id, val) {
+                ctx.exit(idx as u8, id, 0);
+                panic!("predicate of stage {} called outside its domain (element {:#x} was rejected by the preceding filter)", idx, id);
+            }
+        }
         let k = st.keep.keeps(id, val);
         ctx.exit(idx as u8, id, k as u64);
         k
